@@ -373,6 +373,10 @@ func genSenderFaults(armored bool) func(ctx *Ctx, emit func(Case)) {
 		for round := 0; round < rounds; round++ {
 			for ci, cfg := range senderConfigs(r, armored) {
 				ops := smallOps(r, ci+round)
+				if armored && (ci+round)%7 == 3 {
+					// more than one armor line (200 words of 15 characters): a line break inside one armor Write
+					ops = "w:" + keys.Hex(r.Bytes(2300)) + ",w:" + keys.Hex(r.Bytes(40)) + ",c"
+				}
 				regular := strings.Count(ops, "c") == 1
 				baseLine := cfg.prefix + " - " + ops
 				base := goExec(baseLine)
@@ -514,6 +518,6 @@ func genSenderSplits(ctx *Ctx, emit func(Case)) {
 
 func init() {
 	regExtra("C14", genSenderFaults(false))
-	// regExtra("C14", genSenderFaults(true))
+	regExtra("C14", genSenderFaults(true))
 	regExtra("C13", genSenderSplits)
 }
